@@ -2748,6 +2748,9 @@ def c05_feed(ctx):
                             used.add('value')
             probs = []
             search_loop = False
+            # a user predicate that the body evaluates but whose verdict no branch reads
+            if 'filter' not in used and any(x in blocks and _user_pred_truth(root, c['res']) for x, c in r.call_sites()):
+                probs.append('the user filter is evaluated inside the loop but no branch depends on its verdict: rejected elements are treated like accepted ones')
             for (cname, ft, hv) in (('accepted', True, True), ('filter-rejects', False, True), ('no-value', True, False)):
                 if (cname == 'filter-rejects' and 'filter' not in used) or (cname == 'no-value' and 'value' not in used):
                     continue
@@ -3245,6 +3248,144 @@ def some_only_if_accepted(ctx, name, depth=0):
     return True
 
 
+def _loop_is_pull_driven(ctx, b, r, header):
+    """the loop is left on the None edge of an Option-valued call made inside it (`while let Some(x) = pull` / `for x in chain`)"""
+    cfg = ctx.cfg(b)
+    blocks = set(cfg.loops().get(header, ())) | {header}
+    for sbb, (d, tg) in r.switches.items():
+        if sbb in blocks and d[0] == 'discr' and d[1][0] == 'call' and any(bb in blocks and c['res'] == d[1] for bb, c in r.call_sites()):
+            try:
+                none_t = r.switch_target(sbb, 0)
+            except Exception:
+                continue
+            if none_t not in blocks or header not in cfg.reach(none_t):
+                return True
+    return False
+
+
+def chain_emits_iff_accepted(ctx, b, chain):
+    """Does the iterator chain (a term in body b) hand on exactly one item per element of its root for which the user filter accepts
+    (and the fallible stage has a value), and none otherwise?  Decided per case by pushing one symbolic element through the
+    adaptors with the user predicate / has_value fixed.  Returns (True/False/None = cannot tell, explanation)."""
+    I = items(ctx)
+    F = ctx.facts
+    root_body = F.root_of(b) if b.is_closure() else b
+    names = []
+    cur = I.normalize(chain)
+    steps = []
+    guard = 0
+    while cur is not None and cur[0] == 'call' and guard < 40 and (is_iter_method(cur) or is_into_iter(cur)):
+        guard += 1
+        m = tcallee(cur)[len(ITER):] if is_iter_method(cur) else 'into_iter'
+        steps.append((m, cur[2][1] if len(cur[2]) > 1 else None))
+        cur = cur[2][0] if cur[2] else None
+        while cur is not None and cur[0] == 'mut':
+            cur = cur[1]
+    steps.reverse()
+    used_total = set()
+
+    def run_case(ft, hv):
+        used = set()
+
+        def atoms(d):
+            if _user_pred_truth(root_body, d):
+                used.add('filter')
+                return ft
+            if _is_value_test(d):
+                used.add('value')
+                return hv
+            return None
+        sd = {'atoms': atoms, 'key': ('chain-case', ft, hv, id(used))}
+
+        def call(f, args):
+            if f is None:
+                return None
+            g = f
+            while g[0] in ('ref', 'mut'):
+                g = g[1]
+            if g[0] == 'param':
+                t_ = ('call', 'std::ops::Fn::call', (g, ('tuple', tuple(args))))
+                if _user_pred_truth(root_body, t_):
+                    used.add('filter')
+                    return ('const', int(ft))
+                return t_
+            if g[0] == 'closure' and g[1] in F.bodies:
+                return ctx.opa.run(g[1], [g] + list(args), seeds=sd).ret
+            if g[0] == 'fn':
+                nm = sg(g[1])
+                if nm.endswith('Fallible::has_value'):
+                    used.add('value')
+                    return ('const', int(hv))
+                if nm.endswith('Fallible::value'):
+                    return ('call', g[1], tuple(args))
+                if g[1] in F.bodies:
+                    return ctx.opa.run(g[1], list(args), seeds=sd).ret
+            return None
+
+        def truth(v):
+            if v is None:
+                return None
+            if const_int(v):
+                return bool(v[1])
+            if _user_pred_truth(root_body, v):
+                used.add('filter')
+                return ft
+            if _is_value_test(v):
+                used.add('value')
+                return hv
+            return None
+        elem = ('param', '$element')
+        emit = True
+        for (m, f) in steps:
+            if m in ('into_iter', 'iter', 'enumerate', 'inspect', 'by_ref', 'peekable', 'fuse', 'cloned', 'copied'):
+                continue
+            if m == 'map':
+                v = call(f, [elem])
+                elem = v if v is not None else ('param', '$mapped')
+            elif m == 'filter':
+                tv = truth(call(f, [elem]))
+                if tv is None:
+                    return None, used
+                emit = emit and tv
+            elif m == 'filter_map':
+                v = call(f, [elem])
+                st = _opt_state(v)
+                if st is None:
+                    return None, used
+                if st == 'none':
+                    emit = False
+                else:
+                    pay = I.payload(v) if v is not None else None
+                    elem = pay if pay is not None else ('param', '$mapped')
+            elif m in ('flat_map', 'flatten'):
+                elem = ('param', '$inner')
+            else:
+                return None, used
+            if not emit:
+                break
+        return emit, used
+
+    res_all, used = run_case(True, True)
+    used_total |= used
+    if res_all is not True:
+        return (False if res_all is False else None), 'with the user tests passing the element is %s' % ('dropped' if res_all is False else 'of unknown fate')
+    # which tests does the chain consult at all?
+    for (ft, hv) in ((False, True), (True, False)):
+        _, u = run_case(ft, hv)
+        used_total |= u
+    if 'filter' in used_total:
+        rr, _ = run_case(False, True)
+        if rr is not False:
+            return (False if rr is True else None), 'an element the user filter rejects is %s' % ('still handed on' if rr is True else 'of unknown fate')
+    if 'value' in used_total:
+        rr, _ = run_case(True, False)
+        if rr is not False:
+            return (False if rr is True else None), 'an element without a value is %s' % ('still handed on' if rr is True else 'of unknown fate')
+    if not used_total:
+        return None, 'the chain consults no user test'
+    return True, 'one item per accepted element (tests: %s)' % ', '.join(sorted(used_total))
+
+
 def check_count_body(ctx, out, tb, depth=0):
     I = items(ctx)
     I0 = items0(ctx)
@@ -3357,6 +3498,11 @@ def check_count_body(ctx, out, tb, depth=0):
             one_inc = rv['r'] == 'bin' and rv['op'].startswith('Add') and ((rv['b'].get('k') == 'int' and rv['b'].get('v') == '1') or
                                                                           (rv['a'].get('k') == 'int' and rv['a'].get('v') == '1'))
             one_init = rv['r'] == 'use' and rv['o'].get('k') == 'int' and rv['o'].get('v') == '1' and tb.locals[st['lhs']['l']]['ty'] == 'usize' and tb.locals[st['lhs']['l']].get('name')
+            if one_inc and bb in r.visited and cfg.innermost_loop(bb) is not None and _loop_is_pull_driven(ctx, tb, r, cfg.innermost_loop(bb)):
+                # an increment inside a loop driven by an Option-valued pull: C05-FEED decides, by re-executing the loop body with the
+                # user tests fixed, that it happens exactly for accepted elements (whatever shape the acceptance test has)
+                out.inst('C04-THREAD/%s/survivor-inc' % key_of(tb), True, 'in-loop increment: acceptance decided by C05-FEED', nontrivial=False)
+                continue
             if (one_inc or one_init) and bb in r.visited:
                 # same element: no step to another element between the acceptance and the increment - or neither of them is inside a
                 # loop, so each executes at most once (`Some(first) => 1 + count(rest)`)
@@ -3443,9 +3589,14 @@ def c04_chain(ctx):
                 if not okf and ch[0] == 'call' and is_iter_method(ch, ('filter_map',)) and ch[2][1][0] == 'closure':
                     # filter_map(f) where f yields Some only for elements the user filter accepted
                     okf = some_only_if_accepted(ctx, ch[2][1][1])
-                out.inst(key, okf, 'count over %s' % names, sample={'kernel': key_of(b), 'chain': names})
+                why = ''
                 if not okf:
-                    out.fail(key, '%s counts a chain whose last adaptor is not `filter(<user filter>)`: %s' % (key_of(b), names[:3]), b.where(c['line']))
+                    # any other spelling (`.map(is_accepted).filter(|c| *c)`, a closure around the user filter ..): decided semantically
+                    sem, why = chain_emits_iff_accepted(ctx, b, c['args'][0])
+                    okf = sem is True
+                out.inst(key, okf, 'count over %s %s' % (names, why), sample={'kernel': key_of(b), 'chain': names})
+                if not okf:
+                    out.fail(key, '%s counts a chain that does not hand on exactly the elements the user filter accepts (%s): %s' % (key_of(b), why or 'last adaptor is not `filter(<user filter>)`', names[:3]), b.where(c['line']))
     out.floor('count_chains', n, 3 if not ctx.fixture else 0)
     return out
 
